@@ -917,13 +917,22 @@ func runReporterScript(sc *rscript) (obs *robs) {
 			before := atomic.LoadInt64(&watchCount[k])
 			n := int64(0)
 			for _, pw := range cur {
-				if pw.kind == k && pw.expire() {
+				if pw.kind != k {
+					continue
+				}
+				if pw.expire() {
 					n++
+				} else if s.variant == 1 {
+					// nobody took the 410: no re-list follows, so no Watch call may be refused for it
+					goneMu.Lock()
+					delete(gonePending, fmt.Sprintf("%d/%s", k, pw.ns))
+					goneMu.Unlock()
 				}
 			}
 			atomic.AddInt64(&act, 1)
-			// the reflectors re-list after their backoff and open new watches
-			deadline := time.Now().Add(8 * time.Second)
+			// the reflectors re-list after their backoff and open new watches (on a loaded machine the
+			// backoff after a refused Watch plus the second list can take many seconds)
+			deadline := time.Now().Add(40 * time.Second)
 			for !cancelled && atomic.LoadInt64(&watchCount[k]) < before+n && time.Now().Before(deadline) {
 				time.Sleep(5 * time.Millisecond)
 			}
